@@ -166,6 +166,8 @@ def desc(e):
         return "closure"
     if k == "fn":
         return short(e["def"])
+    if k == "const" and e.get("def"):
+        return e["def"].split("::")[-1]
     return k or "?"
 
 
